@@ -130,6 +130,12 @@ func (lp *ListParser) getBullet(styleName string, level int, itemNum int) string
 
 // extractParagraphText extracts text from a paragraph XML element.
 func extractParagraphText(p paragraphXML) string {
+	// Paragraphs decoded from XML carry their text in document order.
+	if p.decoded {
+		return p.content
+	}
+
+	// Fallback for hand-built values: direct text first, then span text.
 	var parts []string
 
 	// Direct text content
